@@ -71,3 +71,18 @@ func verifLemmaDecodeThenEncode(m *Message) error {
 
 	return nil
 }
+
+// verifLemmaXORAddrRoundTrip (C06): an address and port added as XOR-MAPPED-ADDRESS (or under any other attribute
+// type, as AddToAs allows) are what the getter returns from the re-decoded message, under every transaction ID.
+func verifLemmaXORAddrRoundTrip(m *Message, a XORMappedAddress, attr AttrType) (XORMappedAddress, error) {
+	if err := a.AddToAs(m, attr); err != nil {
+		return XORMappedAddress{}, err
+	}
+	if err := verifLemmaDecodeOfWire(m); err != nil {
+		return XORMappedAddress{}, err
+	}
+	var got XORMappedAddress
+	err := got.GetFromAs(m, attr)
+
+	return got, err
+}
